@@ -826,7 +826,11 @@ class ExprMixin:
                 f = cls_list[0].all_fields().get(name)
                 if f is not None and f.default is not P.MISSING and not isinstance(f.default, tuple):
                     if isinstance(f.default, (list, dict)):
-                        return PyList() if isinstance(f.default, list) else PyDict()
+                        # pydantic copies mutable defaults per instance: one container per object
+                        cont = PyList(origin=("attr", base, name)) if isinstance(f.default, list) else PyDict(origin=("attr", base, name))
+                        cont.base_loops, cont.base_guards = (), ()
+                        self.heap[(base, name)] = cont
+                        return cont
                     return K(f.default)
         for ci in cls_list:
             if name in ci.all_fields():
